@@ -10,6 +10,23 @@ from common import q, z, b, lst, opt, pair
 MIN_INT, MAX_INT = -32768, 32767
 
 # ----------------------------------------------------------------------------- build
+def declare(vid, bd, salt=0):
+    """puan.variable(id, bounds[, dtype]) in one of its documented spellings, chosen from the data: bounds as tuple, list, numpy
+    array or puan.Bounds, with or without the explicit dtype that matches them - the declared box is the same"""
+    lo, hi = int(bd[0]), int(bd[1])
+    k = (lo + 2 * hi + salt) % 6
+    if k == 0:
+        return puan.variable(vid, (lo, hi), dtype="int" if (lo, hi) != (0, 1) else "bool")
+    if k == 1:
+        return puan.variable(vid, [lo, hi])
+    if k == 2:
+        return puan.variable(vid, puan.Bounds(lo, hi))
+    if k == 3:
+        return puan.variable(vid, (lo, hi), dtype=puan.Dtype.INT if (lo, hi) != (0, 1) else None)
+    if k == 4:
+        return puan.variable(vid, np.array([lo, hi]))
+    return puan.variable(vid, (lo, hi))
+
 def mk_poly(M, bnds, var_ids=None, idx_ids=None, narrow=False):
     """M: list of rows [b, a1..an]; bnds: [(lo,hi)] per column of A.  narrow=True stores the matrix in the narrowest
     (deterministically chosen among those that fit) integer dtype that holds every entry exactly."""
@@ -19,7 +36,7 @@ def mk_poly(M, bnds, var_ids=None, idx_ids=None, narrow=False):
     # column 0 carries b; the variable declared for it is the support vector variable (bounds (1,1)) or, as in the library's own
     # examples, a plain puan.variable("0") with the default bounds (0,1): chosen from the data, it must not matter for A
     b0 = (1, 1) if (len(M) + n + sum(int(x[0]) + int(x[1]) for x in bnds)) % 4 else (0, 1)
-    vs = [puan.variable(var_ids[0], b0)] + [puan.variable(var_ids[j + 1], tuple(bnds[j])) for j in range(n)]
+    vs = [puan.variable(var_ids[0], b0)] + [declare(var_ids[j + 1], bnds[j], j) for j in range(n)]
     ix = [puan.variable(i, (0, 1)) for i in idx_ids]
     arr = np.array(M, dtype=np.int64).reshape(len(M), n + 1)
     if narrow and M:
@@ -326,6 +343,17 @@ def np_points(pts, n, rank, dtype=None):
         elif k == 2:
             axes = tuple(reversed(range(a.ndim)))
             a = np.ascontiguousarray(a.transpose(axes)).transpose(axes)
+    # ... and so is the array class: a plain numpy array, or one of the library's own integer array classes (what
+    # get_neighbourhood(), from_list() or an earlier computation hand out), with its default variable tags - chosen from the data
+    if a.size:
+        c = (int(np.abs(a.astype(np.int64)).sum()) // 3 + a.size) % 4
+        try:
+            if c == 1:
+                a = pnd.integer_ndarray(a)
+            elif c == 2 and a.min() >= 0 and a.max() <= 1:
+                a = pnd.boolean_ndarray(a)
+        except Exception:
+            pass
     return a
 
 def _flat(x):
